@@ -3,6 +3,7 @@
 package vtrace
 
 import (
+	"os"
 	"fmt"
 	"path/filepath"
 	"sort"
@@ -36,7 +37,9 @@ func allowedPath(base, p string) bool {
 func TestC03Confinement(t *testing.T) {
 	rapid.Check(t, func(t *rapid.T) {
 		cfg := smallConfig()
-		pre := []preUser{{Name: "root", PW: "root-pw", Admin: true, PID: 1}, {Name: "alice", PW: "alice-pw", PID: 1}}
+		// (valid names that are prefixes of each other up to a '.': a pattern or prefix match on "alice" would also hit the others)
+		pre := []preUser{{Name: "root", PW: "root-pw", Admin: true, PID: 1}, {Name: "alice", PW: "alice-pw", PID: 1},
+			{Name: "alice.b", PW: "aliceb-pw", PID: 1}, {Name: "alice.user", PW: "aliceu-pw", Admin: true, PID: 1}, {Name: "alice@x", PW: "aliceat-pw", PID: 1}}
 		s, err := newSandbox(cfg, pre, true)
 		if err != nil {
 			t.Fatalf("VERIF-INFRA %v", err)
@@ -48,6 +51,14 @@ func TestC03Confinement(t *testing.T) {
 		writePre(sib, cfg, preUser{Name: "bob", PW: "bob-pw", PID: 1})
 		writePre(s.root, cfg, preUser{Name: "decoy", PW: "decoy-pw", PID: 1})
 		writePre(s.root, cfg, preUser{Name: "store", PW: "store-pw", PID: 1})
+		// dangling symbolic links named like hash files of users that do not exist yet, pointing into the sibling store: creating
+		// such a user must not create the link's target
+		symlinks := rapid.Bool().Draw(t, "symlinkDecoys")
+		if symlinks {
+			os.Symlink(filepath.Join(sib, "mallory.user"), filepath.Join(s.base, "mallory.user"))
+			os.Symlink("../sibling/eve.admin", filepath.Join(s.base, "eve.admin"))
+			vlib.Class("base-holds-dangling-symlinks-named-like-hash-files")
+		}
 		m := vlib.InvalidNames(s.base, "alice")
 		var classes []string
 		for k := range m {
@@ -60,7 +71,7 @@ func TestC03Confinement(t *testing.T) {
 			cls := rapid.SampledFrom(append(classes, "valid", "valid")).Draw(t, "class")
 			name := ""
 			if cls == "valid" {
-				name = rapid.SampledFrom([]string{"alice", "root", "newuser", "a.b"}).Draw(t, "vname")
+				name = rapid.SampledFrom([]string{"alice", "alice", "root", "newuser", "a.b", "alice.b", "mallory", "eve"}).Draw(t, "vname")
 			} else {
 				name = rapid.SampledFrom(m[cls]).Draw(t, "name")
 			}
@@ -94,6 +105,12 @@ func TestC03Confinement(t *testing.T) {
 					continue
 				}
 				for _, p := range []string{ev.Path, ev.Path2} {
+					// an operation on ONE valid name touches the two files of that name, the work area and the directory itself -- no other user's file
+					if single := map[string]bool{"authenticate": true, "add": true, "update": true, "setadmin": true, "remove": true, "exists": true}[ops[i].Kind]; p != "" && valid && single &&
+						p != s.base && p != s.base+"/.tmp" && !strings.HasPrefix(p, s.base+"/.tmp/") && p != s.base+"/"+ops[i].User+".user" && p != s.base+"/"+ops[i].User+".admin" {
+						t.Fatalf("VIOLATION C03: %s(%s) issued %s on %s: not one of the two files of that name, the work area or the base directory",
+							ops[i].Kind, vlib.Q(ops[i].User), ev.Name, strings.TrimPrefix(p, s.root))
+					}
 					if p != "" && !allowedPath(s.base, p) {
 						t.Fatalf("VIOLATION C03: %s(%s) issued %s on %s which is outside <base>/<name>.user|.admin and <base>/.tmp (name class %s)",
 							ops[i].Kind, vlib.Q(ops[i].User), ev.Name, strings.TrimPrefix(p, s.root), opClass[i])
@@ -109,6 +126,8 @@ func TestC03Confinement(t *testing.T) {
 			if !valid {
 				vlib.NT("c03t", opClass[i], ops[i].Kind, ops[i].User)
 				vlib.Class("traced-invalid-name")
+			} else {
+				vlib.Class("traced-valid-name:own-files-only")
 			}
 		}
 		if diff := before.Diff(outside(), false, nil); len(diff) > 0 {
